@@ -1,7 +1,16 @@
-from ..rules import r_val
+from ..rules import r_val, r_order, r_hdr
 
 
 def run(prog, rep):
-    rep.explanation = ('Decides structural necessary conditions of C03, not the behaviour: no create path bypasses name '
-                       'validation and the same-kind duplicate test (R-VAL).')
+    rep.explanation = ('Decides structural necessary conditions of C03, not the behaviour: (1) no create path bypasses name '
+                       'validation and the same-kind duplicate test (R-VAL); (2) index access resolves position i through HDF5\'s '
+                       'creation-order index in increasing order, and every group / the file is created with tracked+indexed link '
+                       'creation order (R-ORDER); (3) each backend has-query is decided by the same lookup as the getter, each index '
+                       'getter is the by-name getter applied to the name of the i-th link, and the enumeration visits 0..count-1 in '
+                       'order without early exit (R-LOOKUP). Behaviour for particular name strings and libhdf5\'s own ordering are '
+                       'not decided.')
     r_val.run(prog, rep)
+    r_order.run_order(prog, rep)
+    rule = rep.rule('R-ORDER-FILE', 'the file is created with tracked+indexed creation order (constructor abstraction)', floor=1)
+    r_hdr.run_ctor(prog, rep, rule)
+    r_order.run_lookup(prog, rep)
